@@ -169,6 +169,16 @@ def patterns():
     # the pool is full, two databases queue with nothing coming, then one slot is freed without being handed over (prune) before a tick
     yield dict(maxcap=2, clients=[(0.0, 'd', 0.5, False), (0.0, 'a', 0.0, False), (0.004, 'b', 0.01, False), (0.004, 'c', 0.01, False)], prunes=[(0.006, 'a')],
                slow=[0.0], fail_rate=0.0, gc=120.0, horizon=600.0)
+    # a pruned (suppressed, now empty) block is requested again while the pool is full of another database's idle connections, before any tick dropped it
+    yield dict(maxcap=2, clients=[(0.0, 'a', 0.0, False), (0.002, 'b', 0.0005, False), (0.002, 'b', 0.0005, False), (0.004, 'a', 0.0, False)], prunes=[(0.001, 'a')],
+               slow=[0.0], fail_rate=0.0, gc=120.0, horizon=600.0)
+    yield dict(maxcap=1, clients=[(0.0, 'a', 0.0, False), (0.002, 'b', 0.0, False), (0.004, 'a', 0.0, False)], prunes=[(0.001, 'a')], slow=[0.0], fail_rate=0.0, gc=120.0, horizon=600.0)
+    yield dict(maxcap=2, clients=[(0.0, 'tpl', 0.0, False), (0.6, 'A', 0.0002, False), (0.6, 'A', 0.0002, False), (0.601, 'tpl', 0.0, False)], prunes=[(0.5, 'tpl')],
+               slow=[0.0], fail_rate=0.0, gc=120.0, horizon=600.0)
+    yield dict(maxcap=1, clients=[(0.0, 'tpl', 0.0, False), (0.6, 'A', 0.0002, False), (0.601, 'tpl', 0.0, False)], prunes=[(0.5, 'tpl')], slow=[0.0], fail_rate=0.0, gc=120.0, horizon=600.0)
+    # a lone request for a database without connections arrives at a pool whose whole capacity idles in another block (only the tick can move it)
+    yield dict(maxcap=2, clients=[(0.0, 'a', 0.0, False), (0.0, 'a', 0.0, False), (0.5, 'b', 0.0, False)], slow=[0.0], fail_rate=0.0, gc=120.0, horizon=600.0)
+    yield dict(maxcap=1, clients=[(0.0, 'a', 0.0, False), (0.5, 'b', 0.0, False), (1.0, 'c', 0.0, False), (1.5, 'd', 0.0, False)], slow=[0.0], fail_rate=0.0, gc=120.0, horizon=600.0)
     yield dict(maxcap=4, clients=[(0.0, 'A', 0.05, False)] * 4 + [(0.001, 'B', 0.01, False)] * 2, slow=[0.05], fail_rate=0.0, gc=120.0, horizon=600.0)
     yield dict(maxcap=2, clients=[(0.0, 'db%d' % (i % 5), 0.01, False) for i in range(10)], slow=[0.001, 0.02], fail_rate=0.0, gc=120.0, horizon=600.0)
     yield dict(maxcap=2, clients=[(0.0, 'A', 0.02, True), (0.0, 'A', 0.02, True), (0.001, 'B', 0.0, False), (0.002, 'A', 0.0, False), (0.03, 'B', 0.0, True)], slow=[0.02], fail_rate=0.0, gc=120.0, horizon=600.0)
